@@ -52,6 +52,13 @@ type InputVal struct {
 	Bytes []int64 `json:"bytes,omitempty"`
 }
 
+// PathSample is the concrete input assignment of one completed path.
+type PathSample struct {
+	Inputs  []InputVal `json:"inputs"`
+	Reached []string   `json:"reached"`
+	Path    int        `json:"path"`
+}
+
 type alt struct {
 	id    int
 	model *sym.Model
@@ -96,6 +103,7 @@ type Machine struct {
 	Reached    map[string]int
 	FuncsRun   map[*ssa.Function]int64
 	SamplePCs  []string
+	Samples    []PathSample
 	fnInfos    map[*ssa.Function]*fnInfo
 	natives    map[string]nativeFn
 
@@ -117,6 +125,7 @@ type Machine struct {
 	sched    *Sched
 	harness  string
 	ghost    map[interface{}]interface{}
+	pathReached []string
 }
 
 func NewMachine(prog *ssa.Program, ctx *sym.Ctx, solver *sym.Solver, cfg Config) *Machine {
@@ -166,10 +175,8 @@ func (m *Machine) query(extra *sym.Term) (sym.Result, *sym.Model) {
 	}
 	asserts := make([]*sym.Term, 0, len(m.pc)+1)
 	asserts = append(asserts, m.pc...)
-	if !extra.IsTrue() {
-		asserts = append(asserts, extra)
-	}
-	res, md := m.solver.Check(asserts, true)
+	asserts = append(asserts, extra)
+	res, md := m.solver.Check(m.pc, extra, true)
 	if res == sym.Sat {
 		if md == nil {
 			res = sym.Unknown
@@ -459,6 +466,12 @@ func (m *Machine) violation(kind, label string, md *sym.Model, detail string) {
 		md = m.model
 	}
 	v := &Violation{Kind: kind, Label: label, Pos: pos, Fn: fn, Stack: st, Detail: detail}
+	v.Inputs = m.inputVals(md)
+	m.Violations = append(m.Violations, v)
+}
+
+func (m *Machine) inputVals(md *sym.Model) []InputVal {
+	var out []InputVal
 	ev := sym.NewEvaluator(md)
 	for _, in := range m.inputs {
 		iv := InputVal{Name: in.Name, Kind: in.Kind}
@@ -475,9 +488,12 @@ func (m *Machine) violation(kind, label string, md *sym.Model, detail string) {
 		default:
 			iv.Val = signedVal(ev.Eval(in.Term), in.Term.W, in.Kind)
 		}
-		v.Inputs = append(v.Inputs, iv)
+		out = append(out, iv)
 	}
-	m.Violations = append(m.Violations, v)
+	if out == nil {
+		out = []InputVal{}
+	}
+	return out
 }
 
 func signedVal(v uint64, w int, kind string) int64 {
@@ -519,6 +535,7 @@ func (m *Machine) resetPath() {
 	m.initMode = 0
 	m.sched = nil
 	m.ghost = map[interface{}]interface{}{}
+	m.pathReached = nil
 }
 
 // backtrack advances the decision stack to the next unexplored alternative.
@@ -591,6 +608,9 @@ func (m *Machine) runPath(fn *ssa.Function) {
 	}()
 	m.runMain(fn)
 	m.Stats.Completed++
+	if n := m.Stats.Completed; n <= 3 || (n&(n-1)) == 0 && len(m.Samples) < 12 {
+		m.Samples = append(m.Samples, PathSample{Inputs: m.inputVals(m.model), Reached: append([]string{}, m.pathReached...), Path: m.Stats.Paths})
+	}
 	if len(m.SamplePCs) < 3 {
 		var sb strings.Builder
 		for i, c := range m.pc {
